@@ -43,6 +43,12 @@ def _short_tb(e):
     return ' < '.join(reversed(frames))
 
 
+def _origin(e):
+    """'harness' if the exception was raised by /verif code itself (oracle / catalogue / stub), 'yastn' if inside the code under test"""
+    tb = traceback.extract_tb(e.__traceback__)
+    return 'harness' if tb and os.path.abspath(tb[-1].filename).startswith(VERIF + os.sep) else 'yastn'
+
+
 def run_case_sym(hname, spec, opts):
     from symx import core
     from symx.ctx import SymCtx, Violation, Skip
@@ -93,6 +99,7 @@ def run_case_sym(hname, spec, opts):
             out['cand'] = cand
     except Exception as e:  # noqa -- any other exception on a well-formed input is a violation candidate
         cand = ctx._candidate('exception', type(e).__name__, f'{type(e).__name__}: {str(e)[:300]} @ {_short_tb(e)}')
+        cand['origin'] = _origin(e)
         out['status'] = 'candidate'
         out['cand'] = cand
     out['stats'] = stats.as_dict()
@@ -153,7 +160,7 @@ def run_case_float(hname, spec, values, seed, expect=None):
     except Exception as e:  # noqa
         out['status'] = 'violation'
         out['cand'] = {'kind': 'exception', 'label': type(e).__name__,
-                       'detail': f'{type(e).__name__}: {str(e)[:300]} @ {_short_tb(e)}'}
+                       'detail': f'{type(e).__name__}: {str(e)[:300]} @ {_short_tb(e)}', 'origin': _origin(e)}
     out['stats'] = stats.as_dict()
     out['wall_s'] = round(time.time() - t0, 3)
     return out
@@ -272,6 +279,10 @@ def main_check(pid, hname, tier, seed, extra_evidence=None, pre_results=None):
         seen_sigs = set()
         rfuts = {}
         for c, cand in cands:
+            if cand.get('origin') == 'harness':
+                # raised by the harness / oracle code itself, not by yastn: never reported as a violation of the property
+                harness_errors.append({'case': c['id'], 'why': 'exception raised inside /verif code (oracle or stub limit)', 'cand': {k: v for k, v in cand.items() if k != 'inputs'}})
+                continue
             if cand.get('inputs') is None and cand['kind'] == 'obligation':
                 harness_errors.append({'case': c['id'], 'why': 'no model', 'cand': cand})
                 continue
@@ -296,6 +307,9 @@ def main_check(pid, hname, tier, seed, extra_evidence=None, pre_results=None):
         cand_ids = {c['id'] for c, _ in cands}
         for c, cand in xval_bad:
             if c['id'] in cand_ids:
+                continue
+            if cand.get('origin') == 'harness':
+                harness_errors.append({'case': c['id'], 'why': 'exception raised inside /verif code in the float cross-run', 'cand': cand})
                 continue
             if cand.get('kind') in ('structure', 'exception'):
                 # a concrete (value-independent, tolerance-free) obligation failed on the REAL float backend in the cross-run of the
